@@ -5,7 +5,7 @@ from vlib import hexs, exc_kind, ilist
 
 PROP = "C17"
 TRUSTED = [
-    "Model/ICal.lean is a hand model of tzical._parse_rfc/_parse_offset/get and _tzicalvtz._find_comp/_find_compdt (with the ten-entry cache) and of _tzinfo.fromutc/_fold_status/is_ambiguous; tied by the ical.* correspondence ops",
+    "Model/ICal.lean is a hand model of tzical._parse_rfc/_parse_offset/get and _tzicalvtz._find_comp/_find_compdt (with the ten-entry cache) and of _tzinfo.fromutc/_fold_status/is_ambiguous; tied by the ical.* correspondence ops; _parse_rfc, _parse_offset, _find_comp/_find_compdt/utcoffset/dst/tzname are in addition re-translated from source on every run and proved equal to the model (gen_eq_model_*)",
     "a component's recurrence is abstracted to its sorted onset list: rrulestr(...) of the component lines and rrule.before() are C13/C01/C12 (ical_rrule_link_partial); the correspondence reads the onsets back from the implementation's own rrule objects",
     "str.splitlines/rstrip/strip/upper/int are modelled for ASCII text only",
 ]
@@ -179,23 +179,23 @@ def strip_rrulelines(model_line):
 
 def group_rejected(lines):
     """what tzical does with a component's recurrence lines: rrulestr(..., compatible=True, ignoretz=True, cache=True) raises
-    ValueError, or (fix D-C17-bad-rrule) a rule of the returned set has an interval below 1"""
+    ValueError (since fix D-C01-interval also for a rule whose INTERVAL is below 1)"""
     from dateutil import rrule
     if not lines:
         return False
     try:
         with warnings.catch_warnings():
             warnings.simplefilter("ignore")
-            rr = rrule.rrulestr("\n".join(lines), compatible=True, ignoretz=True, cache=True)
+            rrule.rrulestr("\n".join(lines), compatible=True, ignoretz=True, cache=True)
     except ValueError:
         return True
-    return any(r._interval < 1 for r in rr._rrule + rr._exrule)
+    return False
 
 def _unhex_lines(txt):
     return [bytes.fromhex(h).decode() if h != "." else "" for h in txt.strip("[]").split(",") if h]
 
 def rrulestr_rejects(model_line):
-    """do the recurrence lines the model collected for some component make tzical raise (rrulestr, or the interval check)?"""
+    """do the recurrence lines the model collected for some component make rrulestr raise (as tzical calls it)?"""
     _, _, rest = model_line.partition(" ")
     _, _, zones = rest.partition(" ")
     for z in zones.split(";") if zones else []:
@@ -368,11 +368,11 @@ def correspondence(ctx):
         else:
             ctx.mismatch("ical." + kind, q, e, g)
     # the other direction: a text the implementation ACCEPTS must not contain a component whose recurrence lines are
-    # rejected (rrulestr raising, or a rule with an interval below 1 — such a zone never answers a lookup)
+    # rejected by rrulestr
     outs = ctx.driver(["ical.rrulecalls " + q.split()[1] for q, _ in accepted])
     for (q, e), o in zip(accepted, outs):
         if rrule_groups_rejected(o):
-            ctx.mismatch("ical.parse", q[:300], e[:200], "err ValueError (a component's recurrence lines are rejected)")
+            ctx.mismatch("ical.parse", q[:300], e[:200], "err ValueError (rrulestr rejects a component's recurrence lines)")
     ctx.count("accepted_texts_rule_checked", len(accepted))
     ctx.traces += len(reqs)
     ctx.count("corr_texts", len(texts))
@@ -714,7 +714,8 @@ BAD_RULE_CLASSES = {
     "rrule-bad-byday": [DT, "RRULE:FREQ=YEARLY;BYDAY=XX"], "rrule-bad-count": [DT, "RRULE:FREQ=YEARLY;COUNT=x"], "rrule-bad-until": [DT, "RRULE:FREQ=YEARLY;UNTIL=zzz"],
     "rrule-empty": [DT, "RRULE:"], "dtstart-bad-value": ["DTSTART:notadate", "RRULE:FREQ=YEARLY;BYMONTH=10;BYDAY=-1SU"],
     "rdate-bad-value": [DT, "RDATE:notadate"], "exrule-bad-freq": [DT, "RRULE:FREQ=YEARLY", "EXRULE:FREQ=NEVER"],
-    # rules that never advance: the zone loaded and every lookup spun forever (review 3b F4; fix D-C17-bad-rrule)
+    # rules that never advance: the zone loaded and every lookup spun forever (review 3b F4); repaired by fix D-C01-interval
+    # (rrule.__init__ rejects an interval below 1, so rrulestr raises ValueError inside _parse_rfc)
     "rrule-interval-0-daily": [DT, "RRULE:FREQ=DAILY;INTERVAL=0"], "rrule-interval-0-yearly": [DT, "RRULE:FREQ=YEARLY;INTERVAL=0;BYMONTH=10;BYDAY=-1SU"],
     "rrule-interval-0-minutely": [DT, "RRULE:FREQ=MINUTELY;INTERVAL=0"], "rrule-interval-negative": [DT, "RRULE:FREQ=YEARLY;INTERVAL=-1"],
     "exrule-interval-0": [DT, "RRULE:FREQ=YEARLY;BYMONTH=10;BYDAY=-1SU", "EXRULE:FREQ=DAILY;INTERVAL=0"],
@@ -890,3 +891,7 @@ TRUSTED = TRUSTED + [
     "one object, many calls: harness/tzshared.py — history stream on one _tzicalvtz (> 10 distinct lookups several times over, repeats, year 1 / year 9999, then a check that the two cache lists are in step entry by entry), two-thread statement-level schedules over _find_comp/_find_compdt/utcoffset/dst/tzname with `_cache_lock` replaced by a cooperative lock, and an AST audit that nothing but the two cache lists is written outside __init__",
 ]
 # --- end of the appended block
+
+TRUSTED = TRUSTED + [
+    "translator tie for tzical._parse_rfc: harness/translate_rfc.py re-translates it from /repo's working tree into Generated/TzRfcKernels.lean on every run (while-loop body and condition, line-loop body on the record of carried locals, whole function); named primitives in Model/RfcPy.lean (split(c,1) with its unpack ValueError, del l[i], l[i] += x, for-loops that only raise, the fuelled while loop - proved never to exhaust its fuel -, rrulestr(...) as a parameter: C13's domain, _tzicalvtzcomp / _tzicalvtz constructors as records, self._vtz as an insertion-ordered association list, locals first bound inside a component starting at the record's defaults); exercised through the driver op tzgen.ical.rfc on every correspondence text",
+]
